@@ -502,6 +502,24 @@ pub fn random_run_fork(
 ) -> RunOut {
     let mut rng = Rng::new(seed, run);
     let owned = forced_owned.unwrap_or_else(|| rng.pct(f.p_owned));
+    // "Callback personality": in a third of the runs every eviction callback of the run answers the same
+    // way (e.g. always returns Ok without removing anything, or always removes everything), so that long
+    // eviction loops of one call are explored, not only mixtures.
+    let mut fam = f.clone();
+    if f.w_cbret > 0 && rng.pct(33) {
+        let (res, hold, rem) = match rng.below(100) {
+            0..=39 => (0usize, 100u32, 0u32),  // Ok, keeps its guards until it returns, removes nothing
+            40..=64 => (0, 0, 100),            // Ok, removes everything, guards stay with the client
+            65..=84 => (0, 100, 100),          // Ok, removes everything, drops the guards on return
+            85..=92 => (1, 100, 0),            // Err
+            _ => (2, 100, 0),                  // panic
+        };
+        fam.cb_w = [0, 0, 0];
+        fam.cb_w[res] = 1;
+        fam.p_hold = hold;
+        fam.p_evict_rem = rem;
+    }
+    let f = &fam;
     let id = match fork {
         None => format!("{}-{}-{}-{}", f.name, backend.name(), seed, run),
         Some((n, i)) => format!("{}-{}-{}-{}f{}x{}", f.name, backend.name(), seed, run, n, i),
